@@ -23,7 +23,7 @@ def modules_of(spec):
     return ["a", "b"] + (["c"] if any(n["module"] == "c" for n in spec["nodes"]) else [])
 
 
-def gen_spec(rng, n_m=4, n_p=3, n_v=3, pkg="vpk", p_hidden=0.15, p_explicit=0.2, allow_cycles=True, n_u=1, pkg2=False, outside_helpers=False, lambdas=False, twins=False):
+def gen_spec(rng, n_m=4, n_p=3, n_v=3, pkg="vpk", p_hidden=0.15, p_explicit=0.2, allow_cycles=True, n_u=1, pkg2=False, outside_helpers=False, lambdas=False, twins=False, hdr=False):
     nodes = []
     names = []
     unames = ["U%d" % i for i in range(n_u)]
@@ -119,6 +119,15 @@ def gen_spec(rng, n_m=4, n_p=3, n_v=3, pkg="vpk", p_hidden=0.15, p_explicit=0.2,
     for n in fns:
         # a string literal that is the first constant of a generator expression's code object
         n["gstr"] = r2.choice(["k", "id:", "item-"]) if (not n.get("lam") and r2.random() < 0.4) else None
+    if hdr:
+        # a plain helper that is only named in the HEADER of its user (as the default value of a parameter)
+        for n in fns:
+            if n.get("lam") or n.get("outside") or r2.random() >= 0.35:
+                continue
+            cands = [c for c in fns if c["kind"] == "p" and c["module"] == n["module"] and not c.get("lam") and not c.get("outside")
+                     and fns.index(c) < fns.index(n) and c["name"] not in [r[0] for r in n["refs"]]]
+            if cands:
+                n["refs"].append([r2.choice(cands)["name"], "hdr"])
     if twins:
         # two module variables with the same symbol in different modules, each read by a function of its own module,
         # both reachable from one memento function
@@ -157,6 +166,9 @@ def def_lines(spec, n):
     params = ["x"]
     if n["default"] is not None:
         params.append("d=%d" % n["default"])
+    for rf in n["refs"]:
+        if rf[1] == "hdr":
+            params.append("kf_%s=%s" % (rf[0], sym(node(spec, rf[0]))))
     if n.get("objdefault"):
         params.append("o=_CFG")
     if n["kwdefault"] is not None:
@@ -202,7 +214,9 @@ def def_lines(spec, n):
             aliases.append("%s = %s" % (ref, tname))
         else:
             ref = sym(t)
-        if form == "live":
+        if form == "hdr":
+            out.append("    r += kf_%s(x - 1)" % tname)
+        elif form == "live":
             out.append("    r += int(%s(x + 0.5))" % ref)
         elif t["kind"] == "u" or form == "dead":
             out.append("    r += 0 if x > -5 else %s" % ref)
@@ -268,6 +282,19 @@ def render_module(spec, mod, order_rng=None, plain=False):
     out.append("    if isinstance(v, dict): return sum(v.values()) * 5")
     out.append("    return 0")
     out.append("")
+    # a function named in the header of another one is defined before it
+    mine = list(mine)
+    moved = True
+    while moved:
+        moved = False
+        for u_ in list(mine):
+            for rf in (u_.get("refs") or []):
+                if rf[1] == "hdr":
+                    t_ = node(spec, rf[0])
+                    if t_ in mine and mine.index(t_) > mine.index(u_):
+                        mine.remove(t_)
+                        mine.insert(mine.index(u_), t_)
+                        moved = True
     aliases = []
     for n in mine:
         if n["kind"] not in "mp":
